@@ -582,6 +582,9 @@ func runC03(c *Ctx) {
 			c.check(capOK, "R5", "pool channels are buffered", p.Pos(poolGet.Pos()), "make(chan result, 1)", "the pool creates unbuffered result channels")
 		}
 	}
+	// R6 (shared with C04.R10): after a write that failed inside a frame nothing more is written — the next request
+	// would follow the torn frame on the wire and the peer would read its bytes as the rest of that frame
+	checkWriteFailureLatched(c, "R6")
 }
 
 // sameValue: two SSA values denote the same runtime value in one function activation
@@ -1593,6 +1596,30 @@ func checkLatchedWrites(c *Ctx, rule string, w *ssa.Function, writes []ssa.Instr
 						if u, ok := bo.X.(*ssa.UnOp); ok && u.Op == token.MUL {
 							if st, name, _, ok := fieldOf(u.X); ok && typeName(st) == "conn" && bo.X.Type().String() == "error" {
 								latch = name
+							}
+						}
+					}
+				}
+			}
+			// … and, where this function is the one that takes the connection's mutex (the framing folded into
+			// conn.sendPacket), that test is made with the mutex held: a sender that waited for the lock while the packet
+			// before it tore must see the latch when it gets in
+			if latch != "" && w.Signature.Recv() != nil && typeName(w.Signature.Recv().Type()) == "conn" {
+				locks, _ := lockCallsIn(w)
+				if len(locks) > 0 {
+					for _, b := range w.Blocks {
+						iff, ok := b.Instrs[len(b.Instrs)-1].(*ssa.If)
+						if !ok {
+							continue
+						}
+						bo, ok := iff.Cond.(*ssa.BinOp)
+						if !ok || !isNilConst(bo.Y) {
+							continue
+						}
+						if u, ok := bo.X.(*ssa.UnOp); ok && u.Op == token.MUL {
+							if st, name, _, ok := fieldOf(u.X); ok && typeName(st) == "conn" && name == latch && dominates(iff, call) {
+								c.check(heldAt(u, w.Params[0], "conn.Mutex") == "Lock", rule, key+" (latch read under the mutex)", p.Pos(u.Pos()), "conn."+latch+" is read with conn's mutex held",
+									"the remembered write failure is looked at before the connection's mutex is taken: a sender that queued for the mutex while the previous packet was torn writes its whole packet behind the torn one")
 							}
 						}
 					}
